@@ -998,7 +998,10 @@ pub unsafe extern "C" fn SFileGetFileName(file: HANDLE, buffer: *mut c_char) -> 
         }
     };
 
-    std::ptr::copy_nonoverlapping(c_name.as_ptr(), buffer, c_name.as_bytes_with_nul().len());
+    // The caller's buffer holds MAX_PATH (260) characters including the terminator
+    let name_len = c_name.as_bytes().len().min(259);
+    std::ptr::copy_nonoverlapping(c_name.as_ptr(), buffer, name_len);
+    *buffer.add(name_len) = 0;
 
     set_last_error(ERROR_SUCCESS);
     true
